@@ -231,6 +231,8 @@ package virtual
 //@   at call attach#1 assert entries-are-filed-under-the-normalised-name: arg2 == name && arg3 == normalizedName
 //@   at call attachNewDirectory#1 assert entries-are-filed-under-the-normalised-name: arg2 == name && arg3 == normalizedName
 //@   at call Normalize#1 assert the-name-that-is-normalised-is-the-name-of-the-entry: arg1 == name
+//@   loop 1 invariant every-entry-of-a-batch-is-a-modification-of-its-own-and-so-gets-a-cookie-of-its-own:
+//@             touches(c) == old(touches(c)) + rangeindex + 1 && rangeindex >= -1 && rangeindex < len(namesList)
 //@ func (*inMemoryPrepopulatedDirectory).VirtualRename
 //@   props C13
 //@   ensures failure-modifies-nothing: r2 != StatusOK ==> forall c ref :: touches(c) == 0
